@@ -1,26 +1,52 @@
 package main
 
 import (
-	"context"
+	"encoding/json"
+	"flag"
 	"fmt"
+	"os"
+	"runtime"
+	"time"
 
-	"github.com/couchbaselabs/rosmar"
+	"verif/mc/h"
+
 	"github.com/couchbaselabs/rosmar/vrt"
 )
 
 func main() {
+	if len(os.Args) < 2 {
+		fmt.Fprintln(os.Stderr, "usage: vcheck worker | check <prop> <tier> | replay <file>")
+		os.Exit(2)
+	}
 	vrt.UseVirtualClock(true)
-	out := vrt.Run(nil, nil, func() {
-		b, err := rosmar.OpenBucket(rosmar.InMemoryURL, "b1", rosmar.CreateOrOpen)
+	switch os.Args[1] {
+	case "worker":
+		h.WorkerMain()
+	case "check":
+		fs := flag.NewFlagSet("check", flag.ExitOnError)
+		procs := fs.Int("procs", runtime.NumCPU(), "worker processes")
+		budget := fs.Duration("budget", 0, "internal deadline (0 = tier default)")
+		_ = fs.Parse(os.Args[4:])
+		code := h.RunCheck(os.Args[2], os.Args[3], *procs, *budget)
+		h.CleanupScratch()
+		os.Exit(code)
+	case "replay":
+		b, err := os.ReadFile(os.Args[2])
 		if err != nil {
-			panic(err)
+			fmt.Fprintln(os.Stderr, err)
+			os.Exit(2)
 		}
-		c := b.DefaultDataStore()
-		added, err := c.Add("k", 0, map[string]any{"v": 1})
-		fmt.Println("add", added, err)
-		v, cas, err := c.GetRaw("k")
-		fmt.Println(string(v), cas, err)
-		_ = b.CloseAndDelete(context.Background())
-	})
-	fmt.Printf("%+v\n", out)
+		var w h.Witness
+		if err := json.Unmarshal(b, &w); err != nil {
+			fmt.Fprintln(os.Stderr, err)
+			os.Exit(2)
+		}
+		code := h.Replay(w)
+		h.CleanupScratch()
+		os.Exit(code)
+	default:
+		fmt.Fprintln(os.Stderr, "unknown command", os.Args[1])
+		os.Exit(2)
+	}
+	_ = time.Now
 }
